@@ -72,4 +72,10 @@ CLAIMED['C01'] = dict(
     technique='CrossHair-engine symbolic execution of listener callbacks + NoteRestToken.export on symbolic strings; z3-enumerated slot grids / signifier pairs / layouts through the real import-export pipeline',
     design='5 C01')
 
+CLAIMED['C04'] = dict(
+    text=BMC + 'C04: (a, a2) the six tokenizers obtained from TokenizerFactory.create are executed on tokens built from kernpy\'s own classes with SYMBOLIC duration / signifier / text payloads under a SYMBOLIC category set: kern == ekern - separators, bkern == bekern - separator, akern == aekern - separators, bekern == ekern without signifiers note by note (chord notes counted), non-note tokens identical in all six; (c) HeaderTokenGenerator.new and Encoding.prefix on a symbolic type string for 6 encodings + 3 aliases; (d) whole documents exported in all six encodings per path of a symbolic category selection (restricted, as the property says, to selections keeping durations or pitches) and compared with the cell model.',
+    note=NOTE + 'Which agnostic pitch a note receives is C10\'s subject; payloads are assumed free of the two separator characters (open finding KF-C03-separator-chars).',
+    technique='CrossHair-engine symbolic execution of the tokenizer family / header generator on symbolic strings and a symbolic category container; documents under symbolic selections against a cell model',
+    design='5 C04')
+
 PENDING_REASON = 'check under construction in this session (to be claimed; see DESIGN.md section 5)'
